@@ -159,7 +159,8 @@ def emit_kind(ir, kind, opts=None):
 def parse_kind(art, kind, opts=None):
     o = dict(opts or {})
     if kind in DOC_KINDS:
-        return parse.docstring(art, emit_default_doc=o.get("emit_default_doc", True))
+        # "parse_default_doc": the parser's own flag (keep / strip the default sentence in the prose) when it differs from the emitter's
+        return parse.docstring(art, emit_default_doc=o.get("parse_default_doc", o.get("emit_default_doc", True)))
     if kind == "class":
         return parse.class_(art)
     if kind in ("function", "method"):
